@@ -24,7 +24,15 @@ func (c *PointerCodec) New(r *ReadBuf) unsafe.Pointer {
 }
 
 func (c *PointerCodec) Omit(p unsafe.Pointer) bool {
-	return *(*unsafe.Pointer)(p) == nil
+	pp := *(*unsafe.Pointer)(p)
+	if pp == nil {
+		return true
+	}
+	// A pointer to a nil pointer has no non-null encoding either.
+	if inner, ok := c.Codec.(*PointerCodec); ok {
+		return inner.Omit(pp)
+	}
+	return false
 }
 
 func (c *PointerCodec) Write(w *WriteBuf, p unsafe.Pointer) {
